@@ -23,16 +23,17 @@ MANIFEST = {
             "model is TIED to the code by store dumps: after every Update of small histories the real DB contents (sub-tree root hash "
             "-> encoded sub-tree bytes) must equal the model's store entry by entry, and must contain every sub-tree reachable from "
             "the root. Modelling abstractions that remain TESTED only: key bins read as key bits, left/right goroutines run left "
-            "first, the level-by-level loops of calculateSubTree/treeHasher (transcribed separately in SMT/LayeredFlat.v and "
-            "cross-run on every dump, not proved equal to the tree-recursive norm/shash), byte encoding, batchdb read semantics "
-            "(differential runs on batchdb over pebble). PROOF clauses: smt.Verify is modelled "
+            "first, byte encoding, batchdb read semantics (differential runs on batchdb over pebble); the level-by-level loops of "
+            "calculateSubTree (temp-holder queue) and treeHasher are transcribed on the flat lists (SMT/LayeredFlat.v) and PROVED "
+            "equal to the tree-recursive norm/shash used by the model (C10_layered_calculateSubTree_is_norm, _treeHasher_is_shash), "
+            "and the variant of the model calling them is cross-run on every dump. PROOF clauses: smt.Verify is modelled "
             "faithfully (Verify+CalculateRoot byte level) and proved SOUND for any number of queries under an injective, domain-separated "
             "hash, end to end against the map (a non-empty value is in the map, an empty value or a different query key means the "
             "requested key is absent); completeness is proved only for the canonical proof of one key (multi-key completeness of the Prove "
             "model is partial). Verify/CalculateRoot/Prove models are tied to the Go code on every case: Go proofs must equal model proofs "
             "and verify in both, every tampered proof gets the same verdict in both and, if accepted, must state only true claims.",
     "note": "Trusted: Coq kernel + vm_compute, in-Coq SHA-256 (checked on FIPS vectors), Go harness and Python glue. The refinement "
-            "theorems are about the layered Gallina model; its agreement with smt.go (bins, goroutine order, flat loops, encoding) is "
+            "theorems are about the layered Gallina model; its agreement with smt.go (bins, goroutine order, encoding) is "
             "checked by store-dump correspondence, not proved.",
 }
 IMPORTS = "From LE Require Import SMT.Spec SMT.Tree SMT.Verify SMT.Prove SMT.Layered Corr.C10."
